@@ -8,7 +8,8 @@
 // type), BAD (1: message-level invalid: error-in-payload flag set; 2: declared length exceeds the frame),
 // KIND (0 CMP frame, 1 TECMP-routed frame (first byte 0), 2 undersized buffer (< 8 bytes), 3 runt frame: the endpoint's
 // 8-byte CMP header followed by RUNTLEN (1..15) arbitrary bytes - a message cut off inside its header: invalid, ends the
-// endpoint's open message),
+// endpoint's open message; 4 the same bytes with first byte 0x00: a buffer that is routed to TECMP and is too short to be
+// a TECMP frame - it must not touch any capture-module endpoint),
 // AGG (only with SEG 0, BAD 0, TRAIL 0: a second message of AGGLEN bytes follows in the same frame - 1 unsegmented,
 // 2 last segment (an orphan there), 3 first segment (opens a reassembly), 4 invalid (error-in-payload flag)).
 #include <asam_cmp/decoder.h>
@@ -391,10 +392,10 @@ VP_HARNESS(h_seq)
         const int e = EP[f];
         // ---- build the frame
         unsigned n = 0;
-        if (KIND[f] == 3)
+        if (KIND[f] == 3 || KIND[f] == 4)
         {
             uint8_t* b = g_frame;
-            b[0] = VX[f] ? 2 : 1;
+            b[0] = KIND[f] == 4 ? 0 : (VX[f] ? 2 : 1);
             b[1] = 0;
             vp_put16(b + 2, dev[e]);
             b[4] = TX[f] ? 3 : 1;
@@ -531,8 +532,10 @@ VP_HARNESS(h_seq)
         Packets* ps = new Packets(d->decode(buf, n));
         operator delete(buf);
 
+        if (KIND[f] == 4)
+            vp_assert(ps->size() == 0, PL("a buffer that starts like TECMP and is too short for a TECMP header yields no packet"));
 #if PFX == 6
-        if (KIND[f] != 1)
+        if (KIND[f] != 1 && KIND[f] != 4)
         {
             // soundness: whatever is delivered is byte-identical to a sent message (never a mix, a hole or a repeat)
             vp_assert(ps->size() <= 1, PL("at most one packet per single-message frame"));
@@ -549,7 +552,7 @@ VP_HARNESS(h_seq)
                 vp_assert(ps->size() == 1, PL("a message arriving complete, in order and uninterrupted is delivered (the decoder recovers by itself)"));
         }
 #endif
-        if (KIND[f] != 1 && PFX != 6)
+        if (KIND[f] != 1 && KIND[f] != 4 && PFX != 6)
         {
             vp_assert(ps->size() == (deliver ? 1u : 0u) + (deliver2 ? 1u : 0u), PL("a message is delivered exactly once, when its last segment (or the unsegmented message) arrives, and not otherwise"));
             if (deliver2 && ps->size() == 2)
